@@ -1812,8 +1812,16 @@ _serialize_metadata_props_into = _serialize_string_string_maps
 
 
 def _maybe_add_quantization_annotation(
-    graph_proto: onnx.GraphProto, value: _protocols.ValueProtocol
+    graph_proto: onnx.GraphProto,
+    value: _protocols.ValueProtocol,
+    annotated: set[int] | None = None,
 ) -> None:
+    if annotated is not None:
+        # A value can be an input/initializer and an output at the same time.
+        # Its annotation must be serialized only once.
+        if id(value) in annotated:
+            return
+        annotated.add(id(value))
     if quantization_annotation := value.meta.get(_QUANT_PARAMETER_TENSOR_NAMES_FIELD):
         _serialize_tensor_annotation_into(
             graph_proto.quantization_annotation.add(), value.name, quantization_annotation
@@ -1866,15 +1874,16 @@ def serialize_graph_into(
         graph_proto.name = from_.name
     if from_.doc_string:
         graph_proto.doc_string = from_.doc_string
+    annotated: set[int] = set()
     for input_ in from_.inputs:
         serialize_value_into(graph_proto.input.add(), input_)
         if input_.name not in from_.initializers:
             # Annotations for initializers will be added below to avoid double adding
-            _maybe_add_quantization_annotation(graph_proto, input_)
+            _maybe_add_quantization_annotation(graph_proto, input_, annotated)
     input_names = {input_.name for input_ in from_.inputs}
     # TODO(justinchuby): Support sparse_initializer
     for value in from_.initializers.values():
-        _maybe_add_quantization_annotation(graph_proto, value)
+        _maybe_add_quantization_annotation(graph_proto, value, annotated)
         if _should_create_value_info_for_value(value) and value.name not in input_names:
             # Serialize information about all initializers into value_info,
             # except for those that are also graph inputs
@@ -1894,7 +1903,7 @@ def serialize_graph_into(
             if node_output.is_graph_output():
                 # No need to serialize info for these outputs because they are handled as graph outputs
                 continue
-            _maybe_add_quantization_annotation(graph_proto, node_output)
+            _maybe_add_quantization_annotation(graph_proto, node_output, annotated)
             if not _should_create_value_info_for_value(node_output):  # pylint: disable=no-else-continue
                 # No need to serialize value info if it is not set
                 continue
@@ -1902,7 +1911,7 @@ def serialize_graph_into(
                 serialize_value_into(graph_proto.value_info.add(), node_output)
     for output in from_.outputs:
         serialize_value_into(graph_proto.output.add(), from_=output)
-        _maybe_add_quantization_annotation(graph_proto, output)
+        _maybe_add_quantization_annotation(graph_proto, output, annotated)
     if from_.metadata_props:
         _serialize_metadata_props_into(graph_proto.metadata_props, from_.metadata_props)
 
